@@ -522,7 +522,16 @@ func runC12(c *Ctx) {
 		for _, ft := range guards(sel) {
 			if r.acceptingFact(ft, true) {
 				okf = true
-				if r.connLockUnlockBetween(ft.If, sel) {
+				// from where the flag was read (not from where it was branched on) to the enqueue
+				from := ssa.Instruction(ft.If)
+				derivesFrom(ft.Cond, func(v ssa.Value) bool {
+					if call, ok := v.(*ssa.Call); ok && (callName(call) == "(*sync/atomic.Value).Load" || callName(call) == "(*sync/atomic.Bool).Load") {
+						from = call
+						return true
+					}
+					return false
+				}, false)
+				if r.connLockUnlockBetween(from, sel) {
 					oq.Fail(sel.Pos(), "connLock is released between the accepting test and the enqueue: a conn can be queued after Close has drained the backlog and dropped its reference")
 				}
 				// the flag must be loaded under the lock
@@ -948,6 +957,81 @@ func runC11(c *Ctx) {
 	if nW != 1 {
 		o.Fail(D.Pos(), "expected exactly one buffer write per dispatched datagram, found %d", nW)
 	}
+	// the receive buffers of every read path have the one receive size of the package (a datagram up to that size
+	// arrives whole whichever path reads it)
+	{
+		ob := c.Obl("R2b", "udp.receive-buffers", "every read path receives into buffers of the same constant size, the largest byte-slice size constant of the package's read paths (the receive MTU): batch and plain mode deliver the same datagrams unabridged", 1)
+		sizes := map[*ssa.Function][]int64{}
+		var all []int64
+		for _, rd := range r.readers {
+			instrsOfU(rd, func(in ssa.Instruction) {
+				var k int64
+				switch mk := in.(type) {
+				case *ssa.MakeSlice:
+					sl, ok := mk.Type().Underlying().(*types.Slice)
+					if !ok {
+						return
+					}
+					if bt, ok := sl.Elem().Underlying().(*types.Basic); !ok || bt.Kind() != types.Byte {
+						return
+					}
+					kk, isC := constInt(mk.Len)
+					if !isC {
+						ob.Fail(in.Pos(), "a receive buffer of %s has a size that is not a constant", fname(rd))
+						return
+					}
+					k = kk
+				case *ssa.Alloc:
+					// make([]byte, constant) is an array allocation that is sliced
+					pt, ok := mk.Type().Underlying().(*types.Pointer)
+					if !ok || mk.Comment != "makeslice" {
+						return
+					}
+					arr, ok := pt.Elem().Underlying().(*types.Array)
+					if !ok {
+						return
+					}
+					if bt, ok := arr.Elem().Underlying().(*types.Basic); !ok || bt.Kind() != types.Byte {
+						return
+					}
+					k = arr.Len()
+				default:
+					return
+				}
+				if !isPayloadBuffer(in.(ssa.Value)) {
+					return // e.g. the out-of-band buffer of a batch message
+				}
+				ob.Site(in.Pos(), "receive buffer of %d bytes in %s", k, fname(rd))
+				sizes[rd] = append(sizes[rd], k)
+				all = append(all, k)
+			})
+		}
+		want := int64(-1)
+		if sp := p.SPkgs["udp"]; sp != nil {
+			if nc, ok := sp.Members["receiveMTU"].(*ssa.NamedConst); ok {
+				if k, isC := constInt(nc.Value); isC {
+					want = k
+				}
+			}
+		}
+		for _, k := range all {
+			if want < 0 || k > want {
+				if want < 0 {
+					want = k
+				}
+			}
+		}
+		for _, rd := range r.readers {
+			if len(sizes[rd]) == 0 {
+				ob.Undecide("no receive buffer allocation found in %s", fname(rd))
+			}
+			for _, k := range sizes[rd] {
+				if k != want {
+					ob.Fail(rd.Pos(), "%s receives into buffers of %d bytes, the package's receive size is %d: larger datagrams are truncated on this path only", fname(rd), k, want)
+				}
+			}
+		}
+	}
 	for _, rd := range r.readers {
 		instrsOfU(rd, func(in ssa.Instruction) {
 			call, ok := in.(*ssa.Call)
@@ -1233,3 +1317,60 @@ func inLoop(in ssa.Instruction) bool {
 }
 
 var _ = token.ADD
+
+// isPayloadBuffer: the allocated bytes end up as the payload buffer of a receive call: handed to ReadFrom, or stored
+// (possibly inside a [][]byte literal) into the Buffers field of a batch message.
+func isPayloadBuffer(v ssa.Value) bool {
+	seen := map[ssa.Value]bool{}
+	var rec func(v ssa.Value, d int) bool
+	rec = func(v ssa.Value, d int) bool {
+		if v == nil || seen[v] || d > 8 {
+			return false
+		}
+		seen[v] = true
+		refs := v.Referrers()
+		if refs == nil {
+			return false
+		}
+		for _, rf := range *refs {
+			switch x := rf.(type) {
+			case *ssa.Slice:
+				if rec(x, d+1) {
+					return true
+				}
+			case *ssa.Store:
+				if x.Val != v {
+					continue
+				}
+				switch a := x.Addr.(type) {
+				case *ssa.FieldAddr:
+					if st := structOf(a.X.Type()); st != nil && st.Field(a.Field).Name() == "Buffers" {
+						return true
+					}
+				case *ssa.IndexAddr:
+					if rec(a.X, d+1) { // element of a literal that is stored on
+						return true
+					}
+				case *ssa.Alloc:
+					if rec(a, d+1) {
+						return true
+					}
+				}
+			case *ssa.UnOp:
+				if x.Op == token.MUL && rec(x, d+1) {
+					return true
+				}
+			case ssa.CallInstruction:
+				if x.Common().IsInvoke() && (x.Common().Method.Name() == "ReadFrom" || x.Common().Method.Name() == "Read") {
+					return true
+				}
+			case *ssa.Phi:
+				if rec(x, d+1) {
+					return true
+				}
+			}
+		}
+		return false
+	}
+	return rec(v, 0)
+}
